@@ -508,7 +508,7 @@ def unit_selrange_int(ctx):
     selected cells - a clip face at a non-integer coordinate must not be rounded to an integer"""
     nd = ctx.choose("ndim", [1, 2])
     N = ctx.choose("edge", [3, 4])
-    per = ctx.choose("cells-per-unit-length", [2, 4])
+    per = ctx.choose("cells-per-unit-length", [2] if ctx.tier == "quick" else [2, 4])
     lo0 = ctx.choose("lower-corner", [0, -2])
     i0 = ctx.choose("subregion-from", list(range(0, N)))
     i1 = ctx.choose("subregion-to", list(range(i0 + 1, N + 1)))
